@@ -389,7 +389,7 @@ def check(pid, tier, spec, seed=0, replay=None):
             rep['incomplete'] = r['incomplete'][:3]
             rep.update({'paths': r['paths'], 'pruned': r['pruned'], 'sat': r['sat'], 'unsat': r['unsat'], 'solver_s': round(r['solver_s'], 2), 'cpu_s': round(r['cpu_s'], 2),
                         'wall_s': round(r['wall'], 2), 'insns': r['stats'].get('insn', 0), 'forks': r['stats'].get('forks', 0), 'tasks': r['tasks'],
-                        'asserts_symbolic': r['stats'].get('asserts_symbolic', 0), 'asserts_concrete': r['stats'].get('asserts_concrete', 0),
+                        'asserts_symbolic': r['stats'].get('asserts_symbolic', 0), 'asserts_concrete': r['stats'].get('asserts_concrete', 0), 'asserts_decided_by_simplifier': r['stats'].get('asserts_trivial', 0),
                         'reached': dict(r['reached']), 'functions': len(r['called']), 'function_names': demangle(sorted(r['called']))})
             for lbl in j.get('reach', []):
                 if not r['reached'].get(lbl): rep['missing_reach'].append(lbl)
